@@ -246,7 +246,8 @@ static void gen(Emitter &em, const Options &opt) {
         for (const auto &A : texts_up_to(alpha, amax)) if (mine())
             em.emit("blk.scmp a=" + hex_u64s(A, 8) + " alpha=" + hex_u64s(alpha, 8) + " maxlen=" + std::to_string(bmax));
     };
-    if (thorough) { sweep_s(A8, 3, 3); sweep_s(A5, 4, 4); } else { sweep_s(A8, 3, 2); sweep_s(A8, 2, 3); }
+    sweep_s(A8, 3, 3);
+    if (thorough) sweep_s(A5, 4, 4);
     // fold edges: @ A Z [ ` a z {
     sweep_s({0x40, 0x41, 0x5A, 0x5B, 0x60, 0x61, 0x7A, 0x7B}, 2, 2);
     // ---- triples
